@@ -69,15 +69,7 @@ package types
 //@   inline
 //@   invariant #1 idx: rangeindex >= 0 - 1 && rangeindex < len(rs)
 //@ end
-//@ func RewardRules.UpdateWith
-//@   inline
-//@   invariant #1 idx: rangeindex >= 0 - 1 && rangeindex < len(rs)
-//@ end
 //@ func RewardRules.RewardsPerBlock
-//@   inline
-//@   invariant #1 idx: rangeindex >= 0 - 1 && rangeindex < len(rs)
-//@ end
-//@ func RewardRules.TotalReward
 //@   inline
 //@   invariant #1 idx: rangeindex >= 0 - 1 && rangeindex < len(rs)
 //@ end
@@ -149,4 +141,33 @@ package types
 //@   invariant #2 idx: rangeindex >= 0 - 1
 //@   invariant #3 idx: rangeindex >= 0 - 1
 //@   ensures accepts_export: exportable(data) ==> err == nil
+//@ end
+
+// Per-denomination view of the list helpers AdjustPool relies on (C05, C06): the total budgets as a Coins value, and
+// the rules with the per-block rewards replaced where a new positive value is given.
+//@ func RewardRules.TotalReward
+//@   property C05, C06
+//@   returns total
+//@   uses ridxRange(rs, "")
+//@   uses ridxHit(rs, 0)
+//@   requires distinctRewards(rs)
+//@   requires forall j:Int :: 0 <= j && j < len(rs) ==> ufb("denom_valid", rs[j].Reward) && rs[j].TotalReward >= 0
+//@   invariant #1 idx:  rangeindex >= 0 - 1 && rangeindex < len(rs)
+//@   invariant #1 seen: forall d:Str :: inRules(rs, d) && ridx(rs, d) <= rangeindex ==> amt(total, d) == rs[ridx(rs, d)].TotalReward
+//@   invariant #1 rest: forall d:Str :: !(inRules(rs, d) && ridx(rs, d) <= rangeindex) ==> amt(total, d) == 0
+//@   ensures by_denom: forall d:Str :: amt(total, d) == ite(inRules(rs, d), rs[ridx(rs, d)].TotalReward, 0)
+//@   nopanic
+//@ end
+
+//@ define withRpb(r, c) = ite(amt(c, r.Reward) > 0, with(r, "RewardPerBlock", amt(c, r.Reward)), r)
+//@ func RewardRules.UpdateWith
+//@   property C05, C06
+//@   returns out
+//@   let rs0 = rs
+//@   invariant #1 idx:  rangeindex >= 0 - 1 && rangeindex < len(rs) && len(rs) == len(rs0)
+//@   invariant #1 done: forall j:Int :: 0 <= j && j <= rangeindex ==> rs[j] == withRpb(rs0[j], rewardPerBlock)
+//@   invariant #1 todo: forall j:Int :: rangeindex < j && j < len(rs) ==> rs[j] == rs0[j]
+//@   ensures same_len: len(out) == len(rs0)
+//@   ensures updated:  forall j:Int :: 0 <= j && j < len(rs0) ==> out[j] == withRpb(rs0[j], rewardPerBlock)
+//@   nopanic
 //@ end
